@@ -95,7 +95,7 @@ int main(int argc, char** argv) {
         }
         if (gen_only) { printf("# run %ld\n", idx); plan_print(&plan, stdout); plan_free(&plan); continue; }
         { struct itimerval it; memset(&it, 0, sizeof it); it.it_value.tv_sec = cpu_cap; setitimer(ITIMER_VIRTUAL, &it, NULL); }
-        sim_alloc_reset(); sim_wrap_reset();
+        sim_alloc_reset(); sim_wrap_reset(); sim_hooks_reset(plan.seed);
         sim_sched_cfg_from_plan(&cfg, &plan);
         sim_sched_reset(&cfg);
         sim_on_deadlock = NULL;
